@@ -185,12 +185,12 @@ claim("C05", "translation_validation",
       "per-program translation validation: emitted Python/NumPy/C++ is loaded, scanned (single assignment, no shared variables) and executed against an independent reference interpreter; ASan/UBSan build of the emitted C++",
       "Programs: every shipped (function, signature) of the three targets (NumPy at debug 0 and 1), a unit program for every entry of each kind_to_target / "
       "constant_to_target table, directed programs for printer idioms (operand parenthesisation, per-operand types, equal constants under different types / zero "
-      "signs, non-finite and complex constants, mixed precision) and random typed graphs. Each emitted text must load (exec; g++ -fsyntax-only and two "
+      "signs, non-finite and complex constants, mixed precision, comparisons inside logical operators, ambiguous / constant-like argument names, repeated reference names, list arguments) and random typed graphs; unit, directed and a share of the generated programs are printed both with and without the algebraic rewrite pass. Each emitted text must load (exec; g++ -fsyntax-only and two "
       "shared-object builds), bind every name once before use (ast walk / declaration scan) with no variable shared by distinct sub-expressions, and return "
       "bit-identical results to a scalar reference interpreter over the same primitive library on hostile inputs; the thorough tier rebuilds the C++ batch with "
       "clang++ -fsanitize=address,undefined -fno-sanitize-recover=all and runs every function on the hostile table.",
       "Trusted: vf/refinterp.py semantics (Python math; NumPy scalars; IEEE ops + glibc libm via ctypes, C++ promotion and std::complex-by-scalar rules); g++ 12 "
-      "with -ffp-contract=off -fno-builtin. max/min accept either operand on equal/NaN operands; reference runs that raise are not compared; complex*complex "
+      "with -ffp-contract=off -fno-builtin. max/min follow the primitive each target prints (builtin max/min, std::max/std::min) in the printed operand order; reference runs that raise are not compared; complex*complex "
       "in C++ (libgcc __mulsc3) is not modelled.",
       "DESIGN.md section 3 C05")
 
